@@ -136,10 +136,11 @@ Definition accept_hard c node min minf clocks (err : bool) owners (per : list (l
   end.
 
 (* the clauses, on the ids in lock order; guarded by the representability of the 63-bit format (hard_dom,
-   computed from the inputs and the observed IDFields of the seed id) *)
+   computed from the inputs and the observed IDFields of the seed id).  No guard on the node number: whatever node
+   NewNode accepted is the configured node, and its ids must satisfy every clause *)
 Definition hard_clauses (c : cfg) (node min : Z) (minf : Z * Z * Z) (clocks : list Z) (l : list obs) : bool :=
   let s0 := {| time := f_time minf; step := f_step minf |} in
-  if hard_dom c s0 clocks && node_valid c node && (0 <=? f_step minf) && (f_step minf <=? 4095) then
+  if hard_dom c s0 clocks && (0 <=? f_step minf) && (f_step minf <=? 4095) then
     Nat.eqb (length l) (length clocks)
     (* every id above every earlier id *)
     && incr (map fst l)
@@ -161,9 +162,9 @@ Theorem hard_model_holds c node min clocks : node_valid c node = true ->
   hard_clauses c node min (id_fields c min) clocks (hard_model_obs c node (seed c min) clocks) = true.
 Proof.
   intros Hv. unfold hard_clauses. fold (seed c min).
-  destruct (hard_dom c (seed c min) clocks && node_valid c node && (0 <=? f_step (id_fields c min))
+  destruct (hard_dom c (seed c min) clocks && (0 <=? f_step (id_fields c min))
             && (f_step (id_fields c min) <=? 4095)) eqn:G; [|reflexivity].
-  apply andb_prop in G as [G _]. apply andb_prop in G as [G _]. apply andb_prop in G as [Hd _].
+  apply andb_prop in G as [G _]. apply andb_prop in G as [Hd _].
   pose proof (node_valid_ok c node Hv) as Hn. pose proof (seed_wf c min) as Hw.
   destruct (hard_dom_unfold c _ _ Hd) as (Hc & _).
   pose proof (hard_strictly_increasing c node _ clocks Hn Hw Hd) as HS.
